@@ -519,7 +519,7 @@ func (fx *FuncExec) applyContract(st *State, instr ssa.Instruction, fc *FuncCont
 		func() {
 			defer func() {
 				if r := recover(); r != nil {
-					if tl, ok := r.(toolLimitErr); ok && (strings.Contains(tl.msg, "unknown identifier") || strings.Contains(tl.msg, "no state labelled")) {
+					if tl, ok := r.(toolLimitErr); ok && (strings.Contains(tl.msg, "unknown identifier") || strings.Contains(tl.msg, "no state labelled") || strings.Contains(tl.msg, "no such range loop")) {
 						return
 					}
 					panic(r)
@@ -699,8 +699,7 @@ func (fx *FuncExec) execBuiltin(st *State, instr ssa.Instruction, b *ssa.Builtin
 			return iv("(gs.len " + a.S + ")")
 		case SInt:
 			if _, ok := a.T.Underlying().(*types.Map); ok {
-				fx.em.Assert(fmt.Sprintf("(>= (map.len %s) 0)", a.S))
-				return iv(ite(eq(a.S, "0"), "0", "(map.len "+a.S+")"))
+				return iv(fx.mapLen(st, a))
 			}
 			if pt, ok := a.T.Underlying().(*types.Pointer); ok {
 				if at, ok := pt.Elem().Underlying().(*types.Array); ok {
@@ -723,7 +722,10 @@ func (fx *FuncExec) execBuiltin(st *State, instr ssa.Instruction, b *ssa.Builtin
 		m := args[0].T.Underlying().(*types.Map)
 		dk, _, dh, _ := fx.mapHeaps(st, m)
 		fx.checkGuardMap(st, instr.(ssa.CallInstruction).Common().Args[0], instr.Pos())
-		st.heaps[dk] = fx.em.DefineRaw(dk, fx.heapInfos[dk].sortText, ite(eq(args[0].S, "0"), dh, sto(dh, args[0].S, sto(sel(dh, args[0].S), args[1].S, "false"))))
+		oldDom := sel(dh, args[0].S)
+		newDom := sto(oldDom, args[1].S, "false")
+		fx.em.Assert(eq(fx.mapCard(m, newDom), ite(sel(oldDom, args[1].S), fmt.Sprintf("(- %s 1)", fx.mapCard(m, oldDom)), fx.mapCard(m, oldDom))))
+		st.heaps[dk] = fx.em.DefineRaw(dk, fx.heapInfos[dk].sortText, ite(eq(args[0].S, "0"), dh, sto(dh, args[0].S, newDom)))
 		fx.logWriteAt(dk, args[0].S)
 		return Val{}
 	case "print", "println":
